@@ -146,7 +146,10 @@ Proof.
   - intros C _. apply (asks_of_noreq true s); [apply hm_fin7| |exact C].
     apply reqs_nil_of_noreq. intros k. apply nr_fin7.
   - intros _ L7. unfold fin7.
-    apply (tg_bind (Ge (rS (rl s))) (Eq (rS (rl s)))); [apply tg_updr; lfA|apply A_handle_finalization|reflexivity].
+    assert (T : tg (Eq (rS (rl s))) (updr (set_rS StepAwaitingFinalization);; handle_finalization h r bh vs ash) (Ge (rS (rl s)))).
+    { apply (tg_bind (Ge (rS (rl s)))); [|apply A_handle_finalization].
+      apply tg_updr. intros s1 H1. unfold Eq, Ge in *. fields. steps. lia. }
+    exact (T s eq_refl).
   - intros _ _. apply nr_fin7.
   - intros _ _. apply nr_fin7.
 Qed.
@@ -194,8 +197,8 @@ Proof.
   - apply R_resume. exact H1.
   - apply rr_resume. exact H2.
   - apply ec_resume. exact H3.
-  - apply le7_resume. exact H4.
-  - apply asks_resume. exact H5.
+  - intros L. apply le7_resume; [exact H4|exact L].
+  - intros C. apply asks_resume; [exact H5|exact C].
 Qed.
 
 Lemma HB_enter m s : hm false m -> rr m -> ec m -> le7 m -> tg Cn m asks_ok -> HB false s (m s).
@@ -358,9 +361,9 @@ Proof.
     destruct (cm s) as [[[ck g] op]|] eqn:EC; [|apply IF_noop; auto].
     destruct ((kind =? 1) && (ck =? K_consider)); [apply IF_noop; auto|].
     destruct (negb op).
-    { apply IF_dead; simpl; auto. }
+    { apply IF_dead; [exact I|reflexivity|reflexivity|exact L7]. }
     match goal with |- context [if ?b then _ else _] => destruct b end; [|apply IF_noop; auto].
-    destruct (kind =? 0); [|apply IF_dead; simpl; auto].
+    destruct (kind =? 0); [|apply IF_dead; [exact I|reflexivity|reflexivity|exact L7]].
     destruct (ck =? K_decide).
     + pose proof (record_precommit_facts t (set_cm None s)) as F. destruct F as [_ F2 _ F4 _ _].
       apply (IF_quiet (set_cm None s)); [exact Rn|exact F4|exact F2|rewrite ec_record_precommit; destruct (fl _); try reflexivity; congruence| |apply le7_record_precommit; exact L7].
@@ -499,7 +502,7 @@ Proof.
     destruct (cm s) as [[[ck g] op]|] eqn:EC; [|apply AF_noop; auto].
     destruct ((kind =? 1) && (ck =? K_consider)); [apply AF_noop; auto|].
     destruct (negb op).
-    { apply AF_dead; simpl; auto. }
+    { apply AF_dead; [exact I|reflexivity|reflexivity|exact L7]. }
     assert (X : match run (set_cm None s) with Idle => true | _ => false end = false)
       by (simpl; destruct (run s); try contradiction; reflexivity).
     rewrite X. simpl. apply AF_noop; auto.
@@ -534,9 +537,10 @@ Proof.
   destruct (start_up_shape (set_pend 0 s)) as ([(F & E & L)|(F & E)] & G & S & C); unfold st, fl, ou in *;
     destruct (start_up (set_pend 0 s)) as [[s1 o] f]; simpl in *; subst f.
   - simpl. destruct E as (o' & pk & act & E). subst o. destruct o'; [|destruct o'; discriminate L]. simpl.
-    repeat split; auto; try (repeat constructor; fail). right; left. repeat split; auto.
-    eexists [], pk, act. reflexivity.
-  - subst o. simpl. repeat split; auto; try (repeat constructor; fail). right; right. unfold dead. simpl. auto.
+    split; [reflexivity|]. split; [repeat constructor|]. split; [exact G|]. split; [exact S|].
+    right; left. split; [reflexivity|]. split; [eexists [], pk, act; reflexivity|reflexivity].
+  - subst o. simpl. split; [reflexivity|]. split; [repeat constructor|]. split; [exact G|]. split; [exact S|].
+    right; right. split; [exact I|reflexivity].
 Qed.
 
 Theorem dead_step s e : dead s -> e <> EvStop ->
@@ -549,10 +553,9 @@ Proof.
     try (unfold dead; rewrite ?Rn; repeat split; auto; repeat constructor; fail); try congruence.
   - (* Halted, answer *)
     destruct (cm s) as [[[ck g] op]|] eqn:EC; simpl; [|unfold dead; rewrite Rn; repeat split; auto; repeat constructor].
-    unfold dispatch. simpl. rewrite EC.
-    destruct ((kind =? 1) && (ck =? K_consider)); [simpl; unfold dead; simpl; rewrite Rn; repeat split; auto; repeat constructor|].
-    destruct (negb op); [simpl; unfold dead; simpl; repeat split; auto; repeat constructor|].
-    simpl. rewrite Rn. simpl. unfold dead. simpl. rewrite Rn. repeat split; auto; repeat constructor.
+    destruct ((kind =? 1) && (ck =? K_consider)); simpl; [unfold dead; simpl; rewrite Rn; repeat split; auto; repeat constructor|].
+    destruct (negb op); simpl; [unfold dead; simpl; repeat split; auto; repeat constructor|].
+    rewrite Rn. simpl. unfold dead. simpl. rewrite Rn. repeat split; auto; repeat constructor.
   - (* Halted, arm *)
     unfold dead. simpl. rewrite Rn. repeat split; auto; repeat constructor.
 Qed.
